@@ -576,10 +576,71 @@ def bm_find(vm, o, args, kw):
     return -1
 
 
+def hex_atoms(vm, o):
+    out = []
+    for x in atoms_of(o):
+        if isinstance(x, Run):
+            raise Unsupported('hexlify of an opaque run')
+        if isinstance(x, int):
+            out.extend(('%02x' % x).encode())
+            continue
+        if x.sort == z3.BV:
+            x = z3.BV2Int(x)
+        out.extend([z3.HexDigit(x, True), z3.HexDigit(x, False)])
+    return out
+
+
+def m_hexlify(vm, args, kw):
+    if isinstance(args[0], SBytes):
+        return mk_bytes(hex_atoms(vm, args[0]))
+    if is_sym(args[0]):
+        raise TypeError('a bytes-like object is required')
+    return binascii.hexlify(*args)
+
+
+def m_unhexlify(vm, args, kw):
+    from . import models_str as ms
+    v = args[0]
+    if isinstance(v, (ms.SStr,)):
+        atoms = list(v.a)
+    elif isinstance(v, SBytes):
+        atoms = list(v.a)
+    else:
+        return binascii.unhexlify(*args) if not isinstance(v, str) else bytes.fromhex(v)
+    if len(atoms) % 2:
+        raise binascii.Error('Odd-length string')
+    out = []
+    for hi, lo in zip(atoms[::2], atoms[1::2]):
+        if z3.is_expr(hi) and z3.is_expr(lo) and hi.op == 'hexhi' and lo.op == 'hexlo' and hi.args[0] is lo.args[0]:
+            out.append(hi.args[0])        # the two digits of one symbolic byte: invert without forking
+            continue
+        nib = []
+        for c in (hi, lo):
+            if isinstance(c, int):
+                ch = chr(c)
+                if ch not in '0123456789abcdefABCDEF':
+                    raise binascii.Error('Non-hexadecimal digit found')
+                nib.append(int(ch, 16))
+            else:
+                c = ms.zt(c)
+                if ms.atom_in_range(vm, c, 48, 57):
+                    nib.append(c - 48)
+                elif ms.atom_in_range(vm, c, 97, 102):
+                    nib.append(c - 87)
+                elif ms.atom_in_range(vm, c, 65, 70):
+                    nib.append(c - 55)
+                else:
+                    raise binascii.Error('Non-hexadecimal digit found')
+        out.append(nib[0] * 16 + nib[1])
+    return mk_bytes(out)
+
+
 def bm_hex(vm, o, args, kw):
-    if is_sym(o):
-        from .vm import SymText
-        return SymText([o])
+    if isinstance(o, SBytes):
+        from . import models_str as ms
+        if args or kw:
+            raise Unsupported('bytes.hex with separator on symbolic bytes')
+        return ms.mk_str(hex_atoms(vm, o))
     return o.hex(*args)
 
 
@@ -734,6 +795,10 @@ def m_int_from_bytes(vm, args, kw):
         return z3.BitVecVal(x, 8) if isinstance(x, int) else z3.Int2BV(x, 8)
     bvs = [b8(x) for x in atoms]
     bv = z3.Concat(bvs) if len(bvs) > 1 else bvs[0]
+    if all(z3.is_expr(x) for x in atoms):
+        whole = vm.path_cache.get(('unsplit', tuple(x.tid for x in reversed(atoms))))
+        if whole is not None:
+            return mk_int(whole)
     if any(z3.is_expr(x) and x.sort == z3.BV for x in atoms):
         return SInt(z3.BV2Int(bv), (bv, w))
     val = z3.IntVal(0)
@@ -870,7 +935,12 @@ def struct_unpack(vm, fmt, data):
         i += size
         if order == 'big':
             chunk = chunk[::-1]
-        if all(isinstance(x, int) for x in chunk):
+        whole = None
+        if not signed and all(z3.is_expr(x) for x in chunk):
+            whole = vm.path_cache.get(('unsplit', tuple(x.tid for x in chunk)))
+        if whole is not None:
+            v = mk_int(whole)
+        elif all(isinstance(x, int) for x in chunk):
             v = int.from_bytes(bytes(chunk), 'little', signed=signed)
         else:
             e = z3.IntVal(0)
@@ -902,6 +972,7 @@ def split_bytes(vm, e, size):
         total = total + b * (256 ** i)
     vm.add_pc(e == total)
     vm.path_cache[key] = atoms
+    vm.path_cache[('unsplit', tuple(a.tid for a in atoms))] = e     # lets unpack/from_bytes return e itself
     return atoms
 
 
@@ -952,12 +1023,11 @@ def install(vm):
     MM[(SInt, 'to_bytes')] = im_to_bytes
     MM[(SInt, 'bit_length')] = im_bit_length
     vm.static_models[(int, 'from_bytes')] = m_int_from_bytes
-    def m_hexlify(vm, args, kw):
-        if is_sym(args[0]):
-            from .vm import SymText
-            return SymText(['hex', args[0]])
-        return binascii.hexlify(*args)
     M[id(binascii.hexlify)] = m_hexlify
+    M[id(binascii.unhexlify)] = m_unhexlify
+    M[id(bytes.fromhex)] = m_unhexlify
+    vm.static_models[(bytes, 'fromhex')] = m_unhexlify
+    vm._keepalive.append(bytes.fromhex)
     MM[(int, 'to_bytes')] = im_to_bytes
     for name, model in [('write', bio_write), ('writelines', bio_writelines), ('read', bio_read),
                         ('getvalue', bio_getvalue), ('seek', bio_seek), ('tell', bio_tell)]:
